@@ -235,6 +235,17 @@ Lemma head_parse_int_0x_refuted :
   run_spec MParseInt [VStr [48; 120; 49; 48]%N] = SVal (VInt 16).
 Proof. vm_compute. split; reflexivity. Qed.
 
+(* "0x10".parse_int_radix(10) is not a decimal numeral; "0xz".parse_bigint_radix(36) is 0*36^2 + 33*36 + 35 *)
+Lemma head_parse_radix_0x_refuted :
+  run_impl_head MParseIntRadix [VStr [48; 120; 49; 48]%N; VInt 10] = Ok (VInt 10) /\
+  run_spec MParseIntRadix [VStr [48; 120; 49; 48]%N; VInt 10] = SVal VNil /\
+  run_impl MParseIntRadix [VStr [48; 120; 49; 48]%N; VInt 10] = Ok VNil /\
+  run_impl_head MParseBigintRadix [VStr [48; 120; 122]%N; VInt 36] = Ok (VBig 35) /\
+  run_spec MParseBigintRadix [VStr [48; 120; 122]%N; VInt 36] = SVal (VBig 1223) /\
+  run_impl MParseBigintRadix [VStr [48; 120; 122]%N; VInt 36] = Ok (VBig 1223) /\
+  run_impl MParseIntRadix [VStr [48; 120; 49; 48]%N; VInt 16] = Ok (VInt 16).
+Proof. repeat split; vm_compute; reflexivity. Qed.
+
 (* "abc".delete(0, 3) panics *)
 Lemma head_delete_all_refuted :
   run_impl_head MDelete [VStr [97; 98; 99]%N; VInt 0; VInt 3] = Panic /\
